@@ -6,7 +6,8 @@ A  proof step: Rpft.Props.C05 (render_load…, render_load_idem…, legacy_trigg
 B  tie: Lean model `doc.roundtrip` vs `RapidProContainer.from_dict(d).render()` on every
    generated document and on every fixture (exact JSON equality), codec self-test.
 C  direct oracle on the real code: output ≈ input under the smallest relation (written
-   independently in harness/gen/c05doc.py), second round trip EQUAL to the first, input
+   independently in harness/gen/c05doc.py; `_ui.nodes` entries field for field incl. type and
+   config.operand), second round trip EQUAL to the first, input
    object untouched (deep snapshot + identity of nested containers), output
    JSON-serialisable, legacy triggers carry both keyword forms.
 """
@@ -24,7 +25,7 @@ from ..gen import c05doc as G
 MANIFEST = dict(
     text="Proof: Lean theorems over a hand model (Rpft.Document) of from_dict/render of the whole export schema (flows, all node/router/action kinds incl. pass-through, _ui positions, groups, campaigns, triggers): render_load (load and render succeed and render(load d) ≈ d, ≈ defined as equality of explicit normal forms, for every valid document in re-join order), roundtrip_unordered (for ANY category/exit order the output is exactly shapeDoc(reorderDoc d)), render_load_idem (the second round trip EQUALS the first, without ordering hypotheses), legacy_trigger / legacy_trigger_doc (both keyword forms, no validity hypothesis), kernel-checked negative witnesses for the four hypotheses the code forces; tied to the code by exact comparison of the model's output with RapidProContainer.from_dict(d).render() on type-directed generated documents, a near-valid quirk stream, every fixture JSON and the Lean witnesses, and by tables regenerated from actions.py / routers.py / common.py on every run; the statement itself (≈ written independently in Python, second trip equal, input untouched incl. identity of nested containers, JSON-serialisable, both keyword forms) is evaluated on the real code for every case.",
     ref="§5 C05",
-    note="Trusts: Lean kernel (axioms audited each run), differential harness, generator and Driver JSON codec (self-tested: decode∘encode = id on every generated document), CPython dict order/deepcopy. Pass-through JSON is opaque canonical text in the model; _ui is modelled on node positions only (type/config of the rendered _ui are not modelled); uuid invention and contact-field key derivation are outside the model (model declines, counted). Idempotence is proved on Valid ∧ CatsWired ∧ UntypedFields documents (C05_idem_full, the unconditional statement, is kept visible and is only tested). Open findings (F-C05-a, typed contact field rendering the builtin `type`, was fixed in /repo) F-C05-b (top-level group attributes dropped), F-C05-c (default category not last → reorder), F-C05-d (exits re-emitted in category order) are exercised in a deterministic stream; the main generator avoids their triggers.",
+    note="Trusts: Lean kernel (axioms audited each run), differential harness, generator and Driver JSON codec (self-tested: decode∘encode = id on every generated document), CPython dict order/deepcopy. Pass-through JSON is opaque canonical text in the model; _ui: the model keeps the node positions of the input and derives type/config of every rendered entry from the node (Rpft.DocumentUi: render_ui of the six node classes, operand derivation character by character; tied on every case, instances kernel-checked in ui_operand_whole_path; not part of the ≈ of the Lean theorems); uuid invention and contact-field key derivation are outside the model (model declines, counted). Idempotence is proved on Valid ∧ CatsWired ∧ UntypedFields documents (C05_idem_full, the unconditional statement, is kept visible and is only tested). Open findings (F-C05-a, typed contact field rendering the builtin `type`, was fixed in /repo) F-C05-b (top-level group attributes dropped), F-C05-c (default category not last → reorder), F-C05-d (exits re-emitted in category order) are exercised in a deterministic stream; the main generator avoids their triggers.",
     technique="Lean 4 proof (explicit images of load, association-list invariants for the uuid dictionaries, reordering argument for the category re-join) + model/code differential run + direct oracle",
 )
 
@@ -96,8 +97,7 @@ def oracle(d):
         out1_snap = None
     # ≈
     try:
-        ni, no = G.norm(snap), G.norm(out1)
-        dp = G.diff_paths(ni, no)
+        dp = G.approx_diff(snap, out1)
     except Exception as e:  # noqa: BLE001  (output does not even have the schema's shape)
         dp = [("", "shape", None, f"{type(e).__name__}: {e}")]
     if dp:
@@ -189,9 +189,17 @@ def shrink(d, what, open_ids, budget=300):
     triggers): keep a removal when the oracle still fails with the same `what` and the failure
     is still not a known finding.  Every candidate stays inside the schema (a removal that
     makes the document invalid changes `what` and is rejected)."""
+    def sig(fails):
+        """what + the field that differs (path without indices / uuids): a candidate must fail the same way"""
+        p = (fails[0].get("paths") or [""])[0].split("/")
+        return fails[0]["what"], tuple(c for c in p if not c.isdigit() and not (len(c) == 36 and c.count("-") == 4))
+
+    f0, _ = oracle(copy.deepcopy(d))
+    want = sig(f0) if f0 and f0[0]["what"] == what else None
+
     def still_fails(x):
         fails, _ = oracle(copy.deepcopy(x))
-        return bool(fails) and fails[0]["what"] == what and not classify(x, fails, open_ids)
+        return bool(fails) and fails[0]["what"] == what and (want is None or sig(fails) == want) and not classify(x, fails, open_ids)
 
     def lists(x):
         yield x, "triggers"
@@ -216,11 +224,20 @@ def shrink(d, what, open_ids, budget=300):
             while i < len(holder.get(key, [])) and budget > 0:
                 saved = holder[key]
                 holder[key] = saved[:i] + saved[i + 1:]
+                # a node goes together with its `_ui` entry (the candidate stays inside the schema)
+                ui_nodes = holder.get("_ui", {}).get("nodes") if key == "nodes" and isinstance(holder.get("_ui"), dict) else None
+                gone = saved[i].get("uuid") if isinstance(saved[i], dict) else None
+                ui_saved = dict(ui_nodes) if isinstance(ui_nodes, dict) and gone in ui_nodes else None
+                if ui_saved is not None:
+                    del ui_nodes[gone]
                 budget -= 1
                 if still_fails(cur):
                     progress = True
                 else:
                     holder[key] = saved
+                    if ui_saved is not None:
+                        ui_nodes.clear()
+                        ui_nodes.update(ui_saved)
                     i += 1
     return cur
 
@@ -311,13 +328,48 @@ def corpus():
     return out
 
 
+QUIRK_OPERANDS = [
+    # the two re.sub calls remove EVERY match and their `.` is any character but a newline
+    "@contact.x@contact.y", "@fields.a@fieldsXb", "@contact.@fields.name", "@contact.a@contact\nb", "@fields.\nx", "@results.a@results.b",
+    "@results.a@resultsXb", "@results.@contact.name", "@contact.@results.x", "@contact.", "@fields.", "@results.", "@contact..", "@fields..a",
+    "@contactXname", "@CONTACT.name", "@Contact.name", "@fields.name", "@fields.language.x", "@contact.Name", "@contact.groups ", " @contact.name",
+    "@contact.channel", "@contact.language", "@contact.name", "@contact.é日", "@results.é日.\U0001F600", "@fields.a b.c d", "@results.a\"b.c\\d",
+    # the urn-path pattern: re.match (a prefix), [a-z]+, \s+ (any Unicode white space)
+    '@(default(urn_parts(urns.tel).path,  ""))', '@(default(urn_parts(urns.tel).path,\t""))', '@(default(urn_parts(urns.tel).path,\u00a0\n""))',
+    '@(default(urn_parts(urns.tel).path,\u2003""))', '@(default(urn_parts(urns.tel).path,\u200b""))', '@(default(urn_parts(urns.tel).path,""))',
+    '@(default(urn_parts(urns.tel).path, ""))xyz', '@(default(urn_parts(urns.Tel).path, ""))', '@(default(urn_parts(urns.).path, ""))',
+    '@(default(urn_parts(urns.tel2).path, ""))', '@(default(urn_parts(urns.ext).path, ""))', ' @(default(urn_parts(urns.tel).path, ""))',
+    '@(default(urn_parts(urns.tel).path, "")', '@(default(urn_parts(urns.zzzzzz).path, "")) @contact.name',
+    "@(urn_parts(contact.urn).scheme)", "@(urn_parts(contact.urn).scheme) ", "@contact.groups", "@contact.groups.x", "", "@", "@.", "x",
+]
+
+
+def operand_corpus(open_ids):
+    """tie only: one positioned switch node per operand shape and wait setting — the shapes that drive
+    every branch of the model of render_ui (Rpft.DocumentUi) incl. the ones the property's generator
+    keeps away from (a path holding a further '@contact.' / '@fields.' / '@results.', an empty path,
+    the urn-path pattern matched as a prefix / with other white space)"""
+    out = []
+    for i, op in enumerate(QUIRK_OPERANDS):
+        for wait in (None, {"type": "msg"}):
+            nid = "a0000000-0000-4000-8000-%012x" % i
+            rt = {"type": "switch", "operand": op, "cases": [], "default_category_uuid": "c0000000-0000-4000-8000-00000000000c",
+                  "categories": [{"uuid": "c0000000-0000-4000-8000-00000000000c", "name": "Other", "exit_uuid": "e0000000-0000-4000-8000-00000000000e"}]}
+            if wait:
+                rt["wait"] = wait
+            node = {"uuid": nid, "actions": [], "router": rt, "exits": [{"uuid": "e0000000-0000-4000-8000-00000000000e", "destination_uuid": None}]}
+            d = _doc([_wrap_flow([node], ui={"nodes": {nid: {"position": {"left": i, "top": 0}, "type": "split_by_expression", "config": {"cases": {}}}}})])
+            out.append((f"quirk:operand_corpus:{i}:{'wait' if wait else 'nowait'}", d, open_ids))
+    return out
+
+
 # ----------------------------------------------------------------------------- workers
 
 
 def case_worker(items):
     """items: list of (label, doc, open_ids).  Runs C (oracle) and B (tie) for each."""
     open_ids = items[0][2] if items else set()
-    res = {"n": 0, "viol": [], "nviol": 0, "known": {}, "ties": [], "nties": 0, "codec_bad": [], "model_err": {}, "model_declined": 0, "real_err": 0, "dom": {}, "outside": []}
+    res = {"n": 0, "viol": [], "nviol": 0, "known": {}, "ties": [], "nties": 0, "codec_bad": [], "model_err": {}, "model_declined": 0, "real_err": 0, "dom": {}, "outside": [], "ui_full": 0, "ui_pos_only": 0}
     try:
         drv = core.Driver() if core.DRIVER_BIN.exists() else None
     except core.Infra:
@@ -332,6 +384,10 @@ def case_worker(items):
         res["n"] += 1
         tie_only = label.startswith("quirk:")
         pristine = copy.deepcopy(d)  # the replay must carry the input as it was BEFORE the code ran
+        if not tie_only:
+            full, other = G.editor_entries(d)
+            res["ui_full"] += len(full)
+            res["ui_pos_only"] += other
         fails, out1 = ([], None) if tie_only else oracle(d)
         if tie_only:
             out1, _e = real_roundtrip(d)
@@ -378,8 +434,8 @@ def case_worker(items):
         real_out, real_err = (out1, None) if out1 is not None else real_roundtrip(d)
         if real_out is None:
             res["real_err"] += 1
-        else:
-            real_out = ui_reduce(real_out)
+        # (the model's round trip carries the `_ui` entries in full: position from the input,
+        #  type / config from Rpft.Document.nodeUi — compared with the real output as it is)
         agree = False
         if isinstance(m, dict) and "ok" in m and real_out is not None:
             try:
@@ -406,7 +462,7 @@ def case_worker(items):
 
 
 def ui_reduce(doc):
-    """`_ui` reduced to node positions (what the model keeps of it)"""
+    """`_ui` reduced to node positions (what the model keeps of the INPUT's `_ui`: codec self-test)"""
     doc = dict(doc)
     flows = []
     for f in doc.get("flows", []):
@@ -460,7 +516,9 @@ def run(ck: core.Check):
     ck.lean = core.lean_step("C05", thorough=(ck.tier == "thorough"))
     ck.rule = (
         "documents are generated type-directed from the export schema (every optional key absent / empty / present, "
-        "all 23 action types incl. unknown extra keys on pass-through ones, 0..5 nodes of every node kind, categories shared by "
+        "all 23 action types incl. unknown extra keys on pass-through ones, 0..5 nodes of every node kind, switch operands with 0 / 1 / 2+ dotted "
+        "path segments in the namespaces contact / fields / results and in look-alike namespaces, urn-scheme operands and other expressions, `_ui` entries of every "
+        "type the editor writes (with the whole operand path in config.operand) on some nodes and no entry on others, categories shared by "
         "several cases, permuted category order, group references with attributes, campaigns with both event kinds, triggers "
         "K/C/M/T in new and legacy form, renamed objects: references to ONE flow uuid under its current and older names in "
         "enter_flow actions / campaign events / triggers, one group uuid listed and referred to under two names) plus every fixture JSON embedded in a full export; a case is non-trivial when the "
@@ -472,7 +530,7 @@ def run(ck: core.Check):
     ]
     ck.partial_gap = [
         "render_load_idem is proved for Valid ∧ CatsWired ∧ UntypedFields documents; the unconditional C05_idem_full (e.g. categories sharing an exit, timeout of 0 s) is only tested (oracle C on every case, tie on the quirk stream)",
-        "_ui: only node positions are modelled; `type`/`config` written by render_ui are outside the model and outside ≈",
+        "_ui: the Lean ≈ (render_load) compares node positions only; `type`/`config` written by render_ui are modelled (Rpft.DocumentUi.nodeUi, tied on every case) and compared field for field by oracle C when the input entry is the editor's entry for its node (the generator's own statement of the format), by position only otherwise (counted); a result/field whose display name differs from its key (`name` ≠ `id` in config.operand) is such an entry: the code cannot know the name (nodes.py TODO)",
         "uuid invention (missing/empty uuids) and generate_field_key are outside the model: the model answers freshUuid/unsupported and those cases are compared by oracle C only",
         "Valid requires every referenced group to be listed at top level and flow references to agree: documents outside are exercised by the quirk stream (tie) only",
     ]
@@ -507,6 +565,8 @@ def run(ck: core.Check):
             for k, n in r["dom"].items():
                 ck.count(f"{kind}: {k}", n)
             outside_domain.extend(r["outside"])
+            ck.count(f"{kind}: _ui entries compared field for field (the editor's entry for the node)", r["ui_full"])
+            ck.count(f"{kind}: _ui entries compared by position only (not the editor's entry)", r["ui_pos_only"])
 
     # 1. corpus: all fixture files
     corp = corpus()
@@ -528,7 +588,7 @@ def run(ck: core.Check):
             out, err = real_roundtrip(w["doc"])
             ck.case("witness:" + w["name"], nontrivial=True)
             ck.count("lean_witnesses_replayed")
-            real_lossless = out is not None and not G.diff_paths(G.norm(w["doc"]), G.norm(out))
+            real_lossless = out is not None and not G.approx_diff(w["doc"], out)
             if real_lossless != bool(w["lossless"]):
                 ck.tie_break("Lean witness (outside Valid): the kernel's verdict and the real code's differ", {"witness": w["name"], "lean_lossless": w["lossless"], "real_lossless": real_lossless, "real_error": err})
             continue
@@ -580,6 +640,10 @@ def run(ck: core.Check):
         ck.count("quirk." + name)
         ck.evaluations += 1
         qitems.append((f"quirk:{name}:seed={seed}", d, open_ids))
+    oc = operand_corpus(open_ids)
+    ck.count("quirk.operand_corpus", len(oc))
+    ck.evaluations += len(oc)
+    qitems += oc
     qres = par.pmap(case_worker, core.shard(qitems, par.NPROC * 2))
     fold(qres, "quirk_documents(tie only)")
     for r in qres:
@@ -598,7 +662,11 @@ def run(ck: core.Check):
             "gen.opt.exclude_groups.absent", "gen.opt.exclude_groups.empty", "gen.opt.exclude_groups.present",
             "gen.opt.destination_uuid.absent", "gen.opt.destination_uuid.empty", "gen.opt.destination_uuid.present",
             "gen.groupref.attr.present", "gen.flowref.older_name.action", "gen.flowref.older_name.event", "gen.flowref.older_name.trigger",
-            "gen.group.older_name_same_uuid", "gen.router.switch.wait=timeout", "gen.router.switch.wait=plain", "gen.case.has_group"] + [
+            "gen.group.older_name_same_uuid", "gen.router.switch.wait=timeout", "gen.router.switch.wait=plain", "gen.case.has_group",
+            "gen.operand.expression", "gen.operand.urn_scheme_path", "gen.ui.entry.foreign", "gen.ui.entry.none(node without position)"] + [
+        f"gen.operand.{ns}.segments={k}" for ns in G.OPERAND_NAMESPACES + ["near_namespace"] for k in ("0", "1", "2+")] + [
+        f"gen.ui.{e}.plain_split.{ns}.segments={k}" for e in ("entry", "no_entry") for ns in G.OPERAND_NAMESPACES for k in ("0", "1", "2+")] + [
+        "gen.ui.entry." + t for t in G.UI_ENTRY_CLASSES] + [
         f"gen.trigger.{form}.{t}" for form in ("new", "legacy") for t in G.TRIGGER_TYPES] + [
         "gen.action." + t for t in list(G.PASS_THROUGH) + G.SPECIAL]
     missing = [s for s in need if not ck.strata.get(s)]
